@@ -74,7 +74,7 @@ def run_mutants(mutants, props=None, verbose=True):
     """mutants: list of dict(id, prop, edits=[(file, old, new)], expect=<substring of key> | None for silent)"""
     results = []
     for m in mutants:
-        if props and m["prop"] not in props:
+        if props and m["prop"] not in props and m["id"] not in props:
             continue
         root = make_scratch()
         try:
